@@ -35,36 +35,46 @@ func coqPairs(l []pair) string {
 	return vx.ListOf(l, coqPair)
 }
 
-func maskOf(s ds.ReadableSet[int]) (m uint64) {
+// elem: the element types the set scripts run on (int in the round-1 families; uint64 in the API family, because
+// Set.Decode needs an element type serix can encode)
+type elem interface{ ~int | ~uint64 }
+
+func maskOfE[E elem](s ds.ReadableSet[E]) (m uint64) {
 	if s == nil {
 		return 0
 	}
-	s.Range(func(e int) { m |= 1 << uint(e) })
+	s.Range(func(e E) { m |= 1 << uint(e) })
 	return m
 }
-func setOf(m uint64) ds.Set[int] {
-	s := ds.NewSet[int]()
+func setOfE[E elem](m uint64) ds.Set[E] {
+	s := ds.NewSet[E]()
 	for e := 0; e < 64; e++ {
 		if m&(1<<uint(e)) != 0 {
-			s.Add(e)
+			s.Add(E(e))
 		}
 	}
 	return s
 }
-func elemsOf(m uint64) (es []int) {
+func elemsOfE[E elem](m uint64) (es []E) {
 	for e := 0; e < 64; e++ {
 		if m&(1<<uint(e)) != 0 {
-			es = append(es, e)
+			es = append(es, E(e))
 		}
 	}
 	return es
 }
-func mutOf(a, d uint64) ds.SetMutations[int] {
-	return ds.NewSetMutations[int]().WithAddedElements(setOf(a)).WithDeletedElements(setOf(d))
+func mutOfE[E elem](a, d uint64) ds.SetMutations[E] {
+	return ds.NewSetMutations[E]().WithAddedElements(setOfE[E](a)).WithDeletedElements(setOfE[E](d))
 }
-func mutPair(m ds.SetMutations[int]) pair {
-	return pair{maskOf(m.AddedElements()), maskOf(m.DeletedElements())}
+func mutPairE[E elem](m ds.SetMutations[E]) pair {
+	return pair{maskOfE(m.AddedElements()), maskOfE(m.DeletedElements())}
 }
+
+func maskOf(s ds.ReadableSet[int]) uint64    { return maskOfE(s) }
+func setOf(m uint64) ds.Set[int]             { return setOfE[int](m) }
+func elemsOf(m uint64) []int                 { return elemsOfE[int](m) }
+func mutOf(a, d uint64) ds.SetMutations[int] { return mutOfE[int](a, d) }
+func mutPair(m ds.SetMutations[int]) pair    { return mutPairE(m) }
 
 // ---------------------------------------------------------------------------------------------------------------
 // script operations (shared by seq generation, execution and Coq printing)
@@ -125,6 +135,8 @@ func (o op) coqS() string {
 		}
 	case "replace":
 		return fmt.Sprintf("Write (OReplace %s)", vx.N(o.A))
+	case "decode":
+		return fmt.Sprintf("Write (ODecode %s)", vx.N(o.A))
 	case "sub":
 		return fmt.Sprintf("Subscribe %d %s", o.C, vx.Bool(o.Trig))
 	case "unsub":
@@ -150,49 +162,51 @@ func vfun(o op) func(uint64) uint64 {
 	panic("bad")
 }
 
-func factory(o op) func(s ds.ReadableSet[int]) ds.SetMutations[int] {
+func factoryE[E elem](o op) func(s ds.ReadableSet[E]) ds.SetMutations[E] {
 	switch o.F {
 	case "const":
-		return func(ds.ReadableSet[int]) ds.SetMutations[int] { return mutOf(o.A, o.B) }
+		return func(ds.ReadableSet[E]) ds.SetMutations[E] { return mutOfE[E](o.A, o.B) }
 	case "toggle":
-		return func(s ds.ReadableSet[int]) ds.SetMutations[int] {
-			if s.Has(int(o.A)) {
-				return mutOf(0, 1<<o.A)
+		return func(s ds.ReadableSet[E]) ds.SetMutations[E] {
+			if s.Has(E(o.A)) {
+				return mutOfE[E](0, 1<<o.A)
 			}
-			return mutOf(1<<o.A, 0)
+			return mutOfE[E](1<<o.A, 0)
 		}
 	case "keep":
-		return func(s ds.ReadableSet[int]) ds.SetMutations[int] { return mutOf(0, maskOf(s)&^o.A) }
+		return func(s ds.ReadableSet[E]) ds.SetMutations[E] { return mutOfE[E](0, maskOfE(s)&^o.A) }
 	}
 	panic("bad factory")
 }
 
-// doSetWrite performs one set write op; ret is the observable return value as (added, deleted) masks.
-func doSetWrite(s reactive.Set[int], o op) pair {
+// doSetWriteE performs one set write op; ret is the observable return value as (added, deleted) masks.
+func doSetWriteE[E elem](s reactive.Set[E], o op) pair {
 	switch o.K {
 	case "apply":
-		return mutPair(s.Apply(mutOf(o.A, o.B)))
+		return mutPairE(s.Apply(mutOfE[E](o.A, o.B)))
 	case "add":
-		if s.Add(elemsOf(o.A)[0]) {
+		if s.Add(elemsOfE[E](o.A)[0]) {
 			return pair{o.A, 0}
 		}
 		return pair{0, 0}
 	case "addall":
-		return pair{maskOf(s.AddAll(setOf(o.A))), 0}
+		return pair{maskOfE[E](s.AddAll(setOfE[E](o.A))), 0}
 	case "delete":
-		if s.Delete(elemsOf(o.B)[0]) {
+		if s.Delete(elemsOfE[E](o.B)[0]) {
 			return pair{0, o.B}
 		}
 		return pair{0, 0}
 	case "deleteall":
-		return pair{0, maskOf(s.DeleteAll(setOf(o.B)))}
+		return pair{0, maskOfE[E](s.DeleteAll(setOfE[E](o.B)))}
 	case "compute":
-		return mutPair(s.Compute(factory(o)))
+		return mutPairE(s.Compute(factoryE[E](o)))
 	case "replace":
-		return pair{0, maskOf(s.Replace(setOf(o.A)))}
+		return pair{0, maskOfE[E](s.Replace(setOfE[E](o.A)))}
 	}
 	panic("bad set write " + o.K)
 }
+
+func doSetWrite(s reactive.Set[int], o op) pair { return doSetWriteE(s, o) }
 
 // ---------------------------------------------------------------------------------------------------------------
 // sequential scripts
@@ -462,9 +476,6 @@ type subRec struct {
 	Log      []pair `json:"log"`
 	variantRec
 	NoLog bool `json:"-"` // the variant exposes no (prev,new) sequence: judged by judgeVariant only
-	// the variant's unsubscribe must not be called by two goroutines at once (WithElements: known finding
-	// reactive-withelements-teardown-race, the process dies with "concurrent map writes"): the generator steers away
-	NoRace bool `json:"-"`
 
 	mu           sync.Mutex
 	in           int32
@@ -517,6 +528,8 @@ type freeRun struct {
 	Writers int       `json:"writers"`
 	Returns []pair    `json:"-"`
 	Hang    bool      `json:"hang,omitempty"`
+	Decodes int       `json:"decodes,omitempty"` // Set.Decode calls (writers whose applied mutation is not returned)
+	Extra   []string  `json:"extra,omitempty"`   // failures noticed by the goroutines themselves
 }
 
 // launchSubs starts ns subscriber goroutines (+ unsubscribers); onUpdate registers a callback on the object.
@@ -532,9 +545,6 @@ func launchSubs(r *vx.Rng, wg *sync.WaitGroup, ns int, onUpdate func(i int, sr *
 		rs, ru1, ru2, rc := r.Fork(), r.Fork(), r.Fork(), r.Fork()
 		if configure != nil {
 			configure(i, sr, r.Fork())
-			if sr.NoRace && mode == 4 {
-				mode = 3
-			}
 		}
 		wg.Add(1)
 		go func() {
@@ -649,16 +659,24 @@ func freeVar(r *vx.Rng) *freeRun {
 	return fr
 }
 
+// freeSet: the round-1 family runs on Set[int]; the API family on Set[uint64] (Decode needs a serix element type)
 func freeSet(r *vx.Rng, api bool) *freeRun {
+	if api {
+		return freeSetE[uint64](r, true)
+	}
+	return freeSetE[int](r, false)
+}
+
+func freeSetE[E elem](r *vx.Rng, api bool) *freeRun {
 	fr := &freeRun{Kind: "set", S0: r.U64() & (1<<universe - 1) & r.U64()}
 	if api {
 		fr.Kind = "set-api"
 	}
-	s := reactive.NewSet[int](elemsOf(fr.S0)...)
+	s := reactive.NewSet[E](elemsOfE[E](fr.S0)...)
 	// the permanent first subscriber: its log (after the initial state) is the global change order
 	perm := &subRec{Trig: true, Complete: true}
 	rp := r.Fork()
-	s.OnUpdate(func(m ds.SetMutations[int]) { perm.enter(rp, mutPair(m)) }, true)
+	s.OnUpdate(func(m ds.SetMutations[E]) { perm.enter(rp, mutPairE(m)) }, true)
 	nw := 1 + r.Intn(3)
 	ns := 1 + r.Intn(3)
 	fr.Writers = nw
@@ -671,8 +689,20 @@ func freeSet(r *vx.Rng, api bool) *freeRun {
 		go func() {
 			defer wg.Done()
 			for k := 0; k < nops; k++ {
+				if api && rw.Chance(1, 6) { // Decode on the live set: a writer whose applied mutation is not returned
+					m := rw.U64() & (1<<universe - 1) & rw.U64()
+					why := decodeInto(s, m)
+					rmu.Lock()
+					fr.Decodes++
+					if why != "" {
+						fr.Extra = append(fr.Extra, why)
+					}
+					rmu.Unlock()
+					dally(rw, 6)
+					continue
+				}
 				o := genSetWrite(rw)
-				ret := doSetWrite(s, o)
+				ret := doSetWriteE(s, o)
 				rmu.Lock()
 				// what the call says it changed; "" for the calls that do not notify
 				switch {
@@ -692,7 +722,7 @@ func freeSet(r *vx.Rng, api bool) *freeRun {
 	if api {
 		configure = func(_ int, sr *subRec, rr *vx.Rng) {
 			if rr.Chance(2, 3) {
-				sr.Variant, sr.Trig, sr.CA, sr.NoRace = "withel", false, 1<<universe-1, true
+				sr.Variant, sr.Trig, sr.CA = "withel", false, 1<<universe-1
 				if rr.Bool() {
 					sr.CA = rr.U64() & (1<<universe - 1)
 				}
@@ -701,19 +731,19 @@ func freeSet(r *vx.Rng, api bool) *freeRun {
 	}
 	subs := launchSubs(r, &wg, ns, func(_ int, sr *subRec, _ *vx.Rng, cb func(pair), trig bool) func() {
 		if sr.Variant == "withel" {
-			return withElements(s, sr.CA, func(d pair) {
+			return withElements[E](s, sr.CA, func(d pair) {
 				sr.mu.Lock()
 				sr.Events = append(sr.Events, d)
 				sr.mu.Unlock()
 			})
 		}
-		return s.OnUpdate(func(m ds.SetMutations[int]) { cb(mutPair(m)) }, trig)
+		return s.OnUpdate(func(m ds.SetMutations[E]) { cb(mutPairE(m)) }, trig)
 	}, configure)
 	if !wait(&wg, 20*time.Second) {
 		fr.Hang = true
 		return fr
 	}
-	fr.Final = maskOf(s)
+	fr.Final = maskOfE[E](s)
 	fr.Subs = append([]*subRec{perm}, subs...)
 	if len(perm.Log) > 0 {
 		fr.G = append([]pair{}, perm.Log[1:]...)
@@ -774,6 +804,7 @@ func judgeFree(m sem, fr *freeRun) (fails []string, midstream int) {
 	if fr.Hang {
 		return []string{"hang: some call did not return within 20s"}, 0
 	}
+	fails = append(fails, fr.Extra...)
 	cur := fr.S0
 	for i, d := range fr.G {
 		if !m.legal(cur, d) {
@@ -838,7 +869,7 @@ func judgeFree(m sem, fr *freeRun) (fails []string, midstream int) {
 			cnt[key(g, true)]++
 			cntDel[g[1]]++
 		}
-		okRet := len(a) == len(b)
+		okRet := len(a) >= len(b) && len(a)-len(b) <= fr.Decodes // a Decode notifies at most once and returns no mutation
 		for _, x := range b {
 			if x[0] == ^uint64(0) {
 				cntDel[x[1]]--
@@ -872,6 +903,9 @@ func emitFree(cf *vx.CasesFile, st *vx.Stats, fr *freeRun, seed uint64, idx int)
 	st.Count(fmt.Sprintf("free:subs=%d", len(fr.Subs)))
 	if mid > 0 {
 		st.Count("free:runs-with-midstream-subscription")
+	}
+	if fr.Decodes > 0 {
+		st.Hist["free:set-decode-calls"] += fr.Decodes
 	}
 	unsub := 0
 	for _, s := range fr.Subs {
